@@ -93,6 +93,77 @@ def shard_body(ctx, sh):
     ctx.cov['sub_checks']['secs:%s' % '/'.join(str(v) for k, v in sorted(sh.items()) if not k.startswith('_'))] = int(_t.time() - _t0)
 
 
+# ---- the parse layer: get_data_type_attrs keeps the active trait-level repeat() carriers in a HashMap
+W_NAMES_12 = ['from_owned', 'try_from_owned', 'owned_into', 'try_owned_into', 'map', 'try_map', 'from', 'try_from']
+W_NAMES_34 = ['from_owned', 'try_from_owned', 'owned_into', 'try_owned_into']
+W_FLAGS = [('repeat(), ', 'stop_repeat, repeat(), '), ('repeat(), ', 'repeat(), '), ('repeat(vars), ', 'stop_repeat, repeat(quick_return), '), ('repeat(), ', '')]
+
+
+def derive_shard(ctx, sh):
+    """whole derive (crate parsers from MIR) on four trait instructions with symbolic names, the first two carrying repeat():
+    insertion order vs every permutation of each HashMap iteration"""
+    import synmodel, c13
+    from engine import SymStr
+    e = ctx.engine()
+    synmodel.install(e)
+    f1, f2 = W_FLAGS[sh['flags']]
+    item = sh['item']
+    UNIS = {1: W_NAMES_12, 2: W_NAMES_12, 3: W_NAMES_34, 4: W_NAMES_34}
+
+    def text_for(fall):
+        er = [', Er' if f else '' for f in fall]
+        return item.replace('{ATTRS}', '#[N1(A%s| %svars(v: { 1 }), return __a(@))] #[N2(B%s| %svars(w: { 2 }), return __b(@))] #[N3(C%s)] #[N4(D%s)]' % (er[0], f1, er[1], f2, er[2], er[3]))
+
+    def run(eng):
+        sym, fall = {}, []
+        for i in (1, 2, 3, 4):
+            fv = z3.Int('wf%d' % i)
+            eng.assume(z3.And(fv >= 0, fv <= 1))
+            f = eng.decide([(0, fv == 0), (1, fv == 1)])
+            fall.append(f)
+            uni = [n for n in UNIS[i] if n.startswith('try') == bool(f)]
+            a = z3.Int('wn%d' % i)
+            eng.assume(z3.And(a >= 0, a < len(uni)))
+            sym['N%d' % i] = SymStr(a, uni)
+        text = text_for(fall)
+        eng.aux['w'] = (text, fall)
+        eng.hash_order = 'insertion'
+        a = c13.outcome(eng, text, sym, raw=True)
+        eng.hash_order = perm_hook
+        try:
+            b = c13.outcome(eng, text, sym, raw=True)
+        finally:
+            eng.hash_order = 'insertion'
+        return a, b
+    res = e.explore(run, max_paths=200000)
+    ctx.absorb(e, res)
+    diffs = {}
+    for r in res:
+        if r.kind != 'ok':
+            ctx.inconclusive.append('engine-level panic in C19 (whole derive): %s' % r.value); continue
+        a, b = r.value
+        same = str(a) == str(b)
+        ctx.cov['queries']['unsat' if same else 'sat'] += 1
+        if not same and (a[0], b[0]) not in diffs:
+            diffs[(a[0], b[0])] = (r, a, b)
+    for key, (r, a, b) in diffs.items():
+        mdl = ctx.model_of(r.pc)
+        t, fall = r.aux['w']
+        for i in (1, 2, 3, 4):
+            uni = [n for n in UNIS[i] if n.startswith('try') == bool(fall[i - 1])]
+            t = t.replace('N%d(' % i, uni[mdl.eval(z3.Int('wn%d' % i), model_completion=True).as_long()] + '(')
+        outs = ctx.replay.run_many([t] * 24)
+        variants = {(o['status'], o['out'], tuple(o['errs'])) for o in outs}
+        if len(variants) > 1:
+            ctx.violation('hash-order', 'parse-layer/trait-repeat', '%d different results in 24 expansions of one input' % len(variants), {'input': t, 'variants': [list(map(str, v))[:3] for v in list(variants)[:3]]})
+        else:
+            ctx.inconclusive.append('predicted order dependence in the parse layer not observed in 24 native expansions: %s' % t)
+    ok_res = [r for r in res if r.kind == 'ok']
+    if ok_res:
+        ctx.sample({'part': 'whole-derive/trait-repeat', 'input': ok_res[len(ok_res) // 2].aux['w'][0], 'outcome': ok_res[len(ok_res) // 2].value[0][0]})
+    ctx.cov['sub_checks']['paths:whole-derive/trait-repeat'] = ctx.cov['sub_checks'].get('paths:whole-derive/trait-repeat', 0) + len(res)
+
+
 def body(ctx):
     fams = ['misuse', 'child', 'ghosts', 'flat']
     shards = sweeps.all_shards(ctx.tier, ctx.seed, fams)
@@ -104,9 +175,10 @@ def body(ctx):
         shards = keep
     ctx.cov['bounds'] = {'families': fams, 'shards': len(shards), 'hash_orders': 'all permutations for containers of <= 3 entries, rotations + reversal beyond'}
     ctx.cov['stubs'] = ['syn argument parsers (post-parse models)', 'HashMap/HashSet are models whose iteration order is a decided choice']
-    ctx.cov['outside_claim'] = ['nondeterminism inside syn/quote/proc-macro2 themselves', 'the parse layer (no unordered container is used there: checked by the callee census of the MIR dump)']
+    ctx.cov['outside_claim'] = ['nondeterminism inside syn/quote/proc-macro2 themselves', 'the parse layer beyond the trait-level repeat() bookkeeping of get_data_type_attrs (its only unordered container), which the whole-derive part covers']
     ctx.assumptions = ['a difference between processes can only come from iteration order of std HashMap/HashSet (RandomState); any other source would be an unmodelled callee and stop the check']
     ctx.run_shards(shard_body, shards)
+    ctx.run_shards(derive_shard, [{'flags': f, 'item': it} for f in range(len(W_FLAGS)) for it in ('{ATTRS} struct S { a: i32 }', '{ATTRS} enum E { A }')])
 
 
 if __name__ == '__main__':
